@@ -1,0 +1,186 @@
+//go:build verif
+
+// Contracts for the deductive verification of this package (machine-checked by
+// /verif/govc). This file is compiled only with the build tag "verif" and
+// contains no executable code besides instantiation anchors: every //@ line is
+// a specification, keyed by function name, loop ordinal (source order) and
+// semantic anchor. See /verif/DESIGN.md for the syntax.
+
+package art
+
+// ---------------------------------------------------------------------------
+// Layer A: bit-level helpers of node4 (mode bv: exact 32/64-bit semantics)
+
+//@ spec firstEq4(w, b) = ite(lane(w,0)==b, 0, ite(lane(w,1)==b, 1, ite(lane(w,2)==b, 2, ite(lane(w,3)==b, 3, -1))))
+//@ spec firstGe4(w, b) = ite(!ult(lane(w,0),b), 0, ite(!ult(lane(w,1),b), 1, ite(!ult(lane(w,2),b), 2, ite(!ult(lane(w,3),b), 3, -1))))
+
+//@ func searchNode4
+//@   mode bv
+//@   ensures[first_equal_lane] mathint(result) == firstEq4(keys, b)
+
+//@ func insertPosNode4
+//@   mode bv
+//@   ensures[first_lane_ge] mathint(result) == firstGe4(keys, b)
+
+//@ func getAtPos
+//@   mode bv
+//@   requires 0 <= mathint(pos) && mathint(pos) <= 3
+//@   ensures[lane] result == lane(keys, pos)
+
+//@ func setAtPos
+//@   mode bv
+//@   requires 0 <= mathint(pos) && mathint(pos) <= 3
+//@   ensures[lanes] forall(j, 0, 4, lane(*keys, j) == ite(j == mathint(pos), b, lane(old(*keys), j)))
+
+//@ func shiftLeftClear
+//@   mode bv
+//@   requires 0 <= mathint(pos) && mathint(pos) <= 3
+//@   ensures[lanes] forall(j, 0, 4, lane(*keys, j) == ite(j < mathint(pos), lane(old(*keys), j), ite(j == mathint(pos), 0, lane(old(*keys), j-1))))
+
+//@ func shiftRightClear
+//@   mode bv
+//@   requires 1 <= mathint(pos) && mathint(pos) <= 4
+//@   ensures[lanes] forall(j, 0, 4, lane(*keys, j) == ite(j < mathint(pos)-1, lane(old(*keys), j), ite(j < 3, lane(old(*keys), j+1), lane(old(*keys), 3))))
+
+//@ func construct
+//@   mode bv
+//@   ensures[lanes] lane(result,0) == a && lane(result,1) == b && lane(result,2) == c && lane(result,3) == d
+
+//@ func deconstruct
+//@   mode bv
+//@   ensures[len] len(result) == 4 && cap(result) == 4
+//@   ensures[lanes] forall(j, 0, 4, result[j] == lane(keys, j))
+//@   ensures[fresh] fresh(result)
+
+// ---------------------------------------------------------------------------
+// instantiation anchors: make go/ssa build every codec instantiation
+// (never called; compiled only under the verif tag)
+
+func verifAnchors() {
+	UnsignedBinaryKey[uint8]{}.Restore(first(UnsignedBinaryKey[uint8]{}.Transform(0)))
+	UnsignedBinaryKey[uint16]{}.Restore(first(UnsignedBinaryKey[uint16]{}.Transform(0)))
+	UnsignedBinaryKey[uint32]{}.Restore(first(UnsignedBinaryKey[uint32]{}.Transform(0)))
+	UnsignedBinaryKey[uint64]{}.Restore(first(UnsignedBinaryKey[uint64]{}.Transform(0)))
+	UnsignedBinaryKey[uint]{}.Restore(first(UnsignedBinaryKey[uint]{}.Transform(0)))
+	SignedBinaryKey[int8]{}.Restore(first(SignedBinaryKey[int8]{}.Transform(0)))
+	SignedBinaryKey[int16]{}.Restore(first(SignedBinaryKey[int16]{}.Transform(0)))
+	SignedBinaryKey[int32]{}.Restore(first(SignedBinaryKey[int32]{}.Transform(0)))
+	SignedBinaryKey[int64]{}.Restore(first(SignedBinaryKey[int64]{}.Transform(0)))
+	SignedBinaryKey[int]{}.Restore(first(SignedBinaryKey[int]{}.Transform(0)))
+	FloatBinaryKey[float32]{}.Restore(first(FloatBinaryKey[float32]{}.Transform(0)))
+	FloatBinaryKey[float64]{}.Restore(first(FloatBinaryKey[float64]{}.Transform(0)))
+}
+
+func first(a, _ []byte) []byte { return a }
+
+// ---------------------------------------------------------------------------
+// Layer A: numeric key codecs (C07). Every obligation is a quantifier-free
+// bit-vector / IEEE-754 query over the full domain of the key type.
+//   len/fresh/same/frame : fixed length, freshly allocated, both results the same slice, nothing else written
+//   order                : x < y  <=>  Transform(x) <lex Transform(y)     (two-run obligation)
+//   injective            : equal encodings <=> equal keys (all NaNs one key)
+//   roundtrip            : Restore(Transform(x)) == x bit for bit (NaN -> NaN)
+
+//@ func (UnsignedBinaryKey[{uint8}]).Transform
+//@   mode bv
+//@   ensures[len] len(result0) == 1 && cap(result0) == 1
+//@   ensures[fresh] fresh(result0)
+//@   ensures[same] result1.obj == result0.obj && result1.off == result0.off && result1.len == result0.len
+//@   ensures[frame] frame()
+//@   rel[order] ult(a.k, b.k) == lexLess(a.result0, b.result0)
+//@   rel[injective] bytesEq(a.result0, b.result0) == (a.k == b.k)
+//@   chain[roundtrip] (UnsignedBinaryKey[$KIND]).Restore(result1) : then == k
+
+//@ func (UnsignedBinaryKey[{uint16}]).Transform
+//@   mode bv
+//@   ensures[len] len(result0) == 2 && cap(result0) == 2
+//@   ensures[fresh] fresh(result0)
+//@   ensures[same] result1.obj == result0.obj && result1.off == result0.off && result1.len == result0.len
+//@   ensures[frame] frame()
+//@   rel[order] ult(a.k, b.k) == lexLess(a.result0, b.result0)
+//@   rel[injective] bytesEq(a.result0, b.result0) == (a.k == b.k)
+//@   chain[roundtrip] (UnsignedBinaryKey[$KIND]).Restore(result1) : then == k
+
+//@ func (UnsignedBinaryKey[{uint32}]).Transform
+//@   mode bv
+//@   ensures[len] len(result0) == 4 && cap(result0) == 4
+//@   ensures[fresh] fresh(result0)
+//@   ensures[same] result1.obj == result0.obj && result1.off == result0.off && result1.len == result0.len
+//@   ensures[frame] frame()
+//@   rel[order] ult(a.k, b.k) == lexLess(a.result0, b.result0)
+//@   rel[injective] bytesEq(a.result0, b.result0) == (a.k == b.k)
+//@   chain[roundtrip] (UnsignedBinaryKey[$KIND]).Restore(result1) : then == k
+
+//@ func (UnsignedBinaryKey[{uint64,uint}]).Transform
+//@   mode bv
+//@   ensures[len] len(result0) == 8 && cap(result0) == 8
+//@   ensures[fresh] fresh(result0)
+//@   ensures[same] result1.obj == result0.obj && result1.off == result0.off && result1.len == result0.len
+//@   ensures[frame] frame()
+//@   rel[order] ult(a.k, b.k) == lexLess(a.result0, b.result0)
+//@   rel[injective] bytesEq(a.result0, b.result0) == (a.k == b.k)
+//@   chain[roundtrip] (UnsignedBinaryKey[$KIND]).Restore(result1) : then == k
+
+//@ func (SignedBinaryKey[{int8}]).Transform
+//@   mode bv
+//@   ensures[len] len(result0) == 1 && cap(result0) == 1
+//@   ensures[fresh] fresh(result0)
+//@   ensures[same] result1.obj == result0.obj && result1.off == result0.off && result1.len == result0.len
+//@   ensures[frame] frame()
+//@   rel[order] slt(a.k, b.k) == lexLess(a.result0, b.result0)
+//@   rel[injective] bytesEq(a.result0, b.result0) == (a.k == b.k)
+//@   chain[roundtrip] (SignedBinaryKey[$KIND]).Restore(result1) : then == k
+
+//@ func (SignedBinaryKey[{int16}]).Transform
+//@   mode bv
+//@   ensures[len] len(result0) == 2 && cap(result0) == 2
+//@   ensures[fresh] fresh(result0)
+//@   ensures[same] result1.obj == result0.obj && result1.off == result0.off && result1.len == result0.len
+//@   ensures[frame] frame()
+//@   rel[order] slt(a.k, b.k) == lexLess(a.result0, b.result0)
+//@   rel[injective] bytesEq(a.result0, b.result0) == (a.k == b.k)
+//@   chain[roundtrip] (SignedBinaryKey[$KIND]).Restore(result1) : then == k
+
+//@ func (SignedBinaryKey[{int32}]).Transform
+//@   mode bv
+//@   ensures[len] len(result0) == 4 && cap(result0) == 4
+//@   ensures[fresh] fresh(result0)
+//@   ensures[same] result1.obj == result0.obj && result1.off == result0.off && result1.len == result0.len
+//@   ensures[frame] frame()
+//@   rel[order] slt(a.k, b.k) == lexLess(a.result0, b.result0)
+//@   rel[injective] bytesEq(a.result0, b.result0) == (a.k == b.k)
+//@   chain[roundtrip] (SignedBinaryKey[$KIND]).Restore(result1) : then == k
+
+//@ func (SignedBinaryKey[{int64,int}]).Transform
+//@   mode bv
+//@   ensures[len] len(result0) == 8 && cap(result0) == 8
+//@   ensures[fresh] fresh(result0)
+//@   ensures[same] result1.obj == result0.obj && result1.off == result0.off && result1.len == result0.len
+//@   ensures[frame] frame()
+//@   rel[order] slt(a.k, b.k) == lexLess(a.result0, b.result0)
+//@   rel[injective] bytesEq(a.result0, b.result0) == (a.k == b.k)
+//@   chain[roundtrip] (SignedBinaryKey[$KIND]).Restore(result1) : then == k
+
+// the declared float order: NaN < -Inf < negatives < -0 < +0 < positives < +Inf, all NaNs one key
+//@ spec fless(x, y) = (isNaN(x) && !isNaN(y)) || (!isNaN(x) && !isNaN(y) && (fplt(x, y) || (isZero(x) && isZero(y) && isNeg(x) && !isNeg(y))))
+//@ spec fsame(x, y) = bits(x) == bits(y) || (isNaN(x) && isNaN(y))
+
+//@ func (FloatBinaryKey[{float32}]).Transform
+//@   mode bv
+//@   ensures[len] len(result0) == 4 && cap(result0) == 4
+//@   ensures[fresh] fresh(result0)
+//@   ensures[same] result1.obj == result0.obj && result1.off == result0.off && result1.len == result0.len
+//@   ensures[frame] frame()
+//@   rel[order] fless(a.k, b.k) == lexLess(a.result0, b.result0)
+//@   rel[injective] bytesEq(a.result0, b.result0) == fsame(a.k, b.k)
+//@   chain[roundtrip] (FloatBinaryKey[$KIND]).Restore(result1) : fsame(then, k)
+
+//@ func (FloatBinaryKey[{float64}]).Transform
+//@   mode bv
+//@   ensures[len] len(result0) == 8 && cap(result0) == 8
+//@   ensures[fresh] fresh(result0)
+//@   ensures[same] result1.obj == result0.obj && result1.off == result0.off && result1.len == result0.len
+//@   ensures[frame] frame()
+//@   rel[order] fless(a.k, b.k) == lexLess(a.result0, b.result0)
+//@   rel[injective] bytesEq(a.result0, b.result0) == fsame(a.k, b.k)
+//@   chain[roundtrip] (FloatBinaryKey[$KIND]).Restore(result1) : fsame(then, k)
